@@ -72,7 +72,10 @@ class World(object):
         if kind == "term":
             names = {s.symbol_name() for s in self._all_syms(out)}
             fresh = sorted(n for n in names if n not in before)
-            return rec("term", t=term_io.export(out), fresh=fresh), out
+            try:
+                return rec("term", t=term_io.export(out), fresh=fresh), out
+            except term_io.Unrepresentable as ex:
+                return rec("text", s="returned a formula the exporter cannot represent (%s)" % ex), out
         if kind == "terms":
             out = list(out)
             names = set()
@@ -155,6 +158,9 @@ class World(object):
             ("And(p,x)", lambda: self._call(lambda: m.And(p, x))),
             ("Plus(x,r)", lambda: self._call(lambda: m.Plus(x, r))),
             ("BVAdd(b4,b8)", lambda: self._call(lambda: m.BVAdd(b, m.Symbol("b8", BVType(8))))),
+            # applications the type checker rejects by RAISING inside its walk (not by returning "no type")
+            ("Equals(p,q) on Booleans", lambda: self._call(lambda: m.Equals(p, q))),
+            ("BVULT(x,y) on Ints", lambda: self._call(lambda: m.BVULT(x, y))),
         ]
         for n in nodes:
             t = n.get_type()
